@@ -1277,3 +1277,38 @@ Proof.
     apply andb_true_iff. split; apply Z.leb_le; auto.
   - apply forallb_forall. intros o Hin. eapply hist_classes; eauto.
 Qed.
+
+(* ---------- one iteration of sync.Run: two collections side by side ---------- *)
+
+Definition latest_on (sc : scen) (ks : list nat) : Z :=
+  fold_right (fun k acc => match ctime sc k with Some t => Z.max t acc | None => acc end) 0 ks.
+
+Lemma all_before_latest : forall sc ks, forallb (before_dl sc) ks = true ->
+  maxfold sc ks = latest_on sc ks /\ maxfold sc ks <= dl sc.
+Proof.
+  intros sc ks. induction ks as [|k ks IH]; simpl; intros H.
+  - split; auto. apply dl_nonneg.
+  - apply andb_true_iff in H. destruct H as [Hk Hks]. destruct (IH Hks) as [He Hl].
+    unfold before_dl in Hk. destruct (ctime sc k) as [t|]; try discriminate.
+    apply Z.ltb_lt in Hk. rewrite He. split; auto. rewrite <- He. lia.
+Qed.
+
+Lemma sync_round_model : forall sc_r sc_p s_r s_p j_r t_r j_p t_p,
+  wf sc_r -> wf sc_p -> reachable sc_r s_r -> reachable sc_p s_p ->
+  coll s_r = Ret j_r t_r -> coll s_p = Ret j_p t_p ->
+  Z.max t_r t_p <= Z.max (dl sc_r) (dl sc_p) /\
+  Z.max t_r t_p = Z.max (expected_ret sc_r) (expected_ret sc_p) /\
+  C16_sync_round_ok sc_r sc_p (Z.max t_r t_p) = true.
+Proof.
+  intros sc_r sc_p s_r s_p j_r t_r j_p t_p Hwr Hwp Hrr Hrp Hcr Hcp.
+  pose proof (deadline_respected sc_r s_r Hwr Hrr) as Hr. rewrite Hcr in Hr. destruct Hr as [Hr1 Hr2].
+  pose proof (deadline_respected sc_p s_p Hwp Hrp) as Hp. rewrite Hcp in Hp. destruct Hp as [Hp1 Hp2].
+  split; [lia|]. split; [congruence|].
+  unfold C16_sync_round_ok. apply andb_true_iff. split; [apply Z.leb_le; lia|].
+  destruct (all_before sc_r) eqn:Har; simpl; auto. destruct (all_before sc_p) eqn:Hap; simpl; auto.
+  apply Z.eqb_eq. unfold all_before in *.
+  destruct (all_before_latest sc_r _ Har) as [Her Hlr]. destruct (all_before_latest sc_p _ Hap) as [Hep Hlp].
+  rewrite <- exact_ret_fold in *. unfold latest_completion. fold (latest_on sc_r (seq 0 (nclk sc_r))).
+  fold (latest_on sc_p (seq 0 (nclk sc_p))). rewrite <- Her, <- Hep.
+  subst t_r t_p. unfold expected_ret. lia.
+Qed.
